@@ -331,7 +331,21 @@ def strat_case(rng, tier, hist):
 
 
 # ====================================================================================== DE runs
+def nan_region(i, thr):
+    """0 where x_i <= thr, NaN where x_i > thr: E = max(0, x_i - thr) * 1e308 * 1e308 is 0 / +inf, E - E is 0 / NaN - an
+    objective that is undefined on part of the search space (like sqrt or log of a negative value; the DSL has neither)"""
+    E = ("*", ("*", ("max", ("c", 0.0), ("-", ("x", i), ("c", thr))), ("c", 1e308)), ("c", 1e308))
+    return ("-", E, E)
+
+
 def gen_de_cost(rng, dim):
+    e = gen_de_cost0(rng, dim)
+    if rng.random() < 0.15:
+        e = ("+", e, nan_region(rng.randrange(dim), rng.choice([0.0, 0.5, -1.0, 1.5, dyadic(rng, -3, 3, 2)])))
+    return e
+
+
+def gen_de_cost0(rng, dim):
     k = rng.random()
     if k < 0.25:      # plateaus: many exact ties between different vectors
         cs = [dyadic(rng, -2, 2, 2) for _ in range(dim)]
@@ -421,6 +435,8 @@ def derun_monitor(run, hist):
                 nrej += 1
                 if te == b["popE"][i] and not same_vec(tx, b["pop"][i]):
                     nties += 1
+                if te != te:
+                    hadd(hist, "DE:nan-trial-rejected")      # IEEE: NaN is never strictly lower
         if not all(a["bestE"] <= v for v in a["popE"]):
             out.append(("DE/best-above-member", "generation %d: bestEnergy %r above a member energy %r" % (g, a["bestE"], a["popE"])))
     hadd(hist, "DE:replaced", nrep); hadd(hist, "DE:rejected", nrej); hadd(hist, "DE:tie-rejected", nties)
@@ -678,8 +694,10 @@ def gen_powell_case(rng, tier):
     if rng.random() < 0.25:
         direc = [[(1.0 if i == j else 0.0) * rng.choice([1.0, 0.5, -2.0]) + (rng.choice([0.0, 0.0, 0.25, -0.5]) if i != j else 0.0)
                   for j in range(dim)] for i in range(dim)]
+    # the user's cap on Brent's iterations, `solver.Solve(cost, imax=k)`: must bind at ALL three line-search call sites
+    imax = rng.choice([None] * 5 + [1, 2, 3, 4, 5, 6])
     return {"dim": dim, "expr": e, "x0": x0, "xtol": xtol, "ftol": ftol, "maxiter": maxiter, "maxfun": maxfun, "direc": direc,
-            "at_opt": at_opt}
+            "at_opt": at_opt, "imax": imax}
 
 
 def run_powell(which, c):
@@ -708,6 +726,20 @@ def run_powell(which, c):
         ls_log.append({"p": p0, "xi": xi0, "fret": float(fret), "x": vec(xn), "xin": vec(xin), "n": len(calls) - n0, "tol": float(tol)})
         return fret, xn, xin
     mod._linesearch_powell = ls
+    imax = c.get("imax")
+    orig_solve = SO.PowellDirectionalSolver.Solve; orig_brent = REF.brent
+    if imax is not None:
+        if which == "mystic":
+            # exactly what a user does: solver.Solve(cost, ..., imax=k) (fmin_powell itself has no such argument)
+            def Solve(self, cost=None, termination=None, ExtraArgs=None, **kwds):
+                kwds["imax"] = imax
+                return orig_solve(self, cost, termination, ExtraArgs, **kwds)
+            SO.PowellDirectionalSolver.Solve = Solve
+        else:
+            # "given the same Brent line search": the reference gets the same capped Brent at every call site
+            def capped(func, args=(), brack=None, tol=1.48e-8, full_output=0, maxiter=500):
+                return orig_brent(func, args=args, brack=brack, tol=tol, full_output=full_output, maxiter=imax)
+            REF.brent = capped
     try:
         kw = dict(xtol=c["xtol"], ftol=c["ftol"], maxiter=c["maxiter"], maxfun=c["maxfun"], full_output=1, disp=0,
                   callback=lambda x: cbs.append(vec(x)), direc=[list(r) for r in c["direc"]] if c["direc"] is not None else None)
@@ -717,6 +749,7 @@ def run_powell(which, c):
             x, f, direc, it, fc, wf = REF.fmin_powell(cost, list(c["x0"]), **kw)
     finally:
         mod._linesearch_powell = orig
+        SO.PowellDirectionalSolver.Solve = orig_solve; REF.brent = orig_brent
     return {"x": vec(x), "f": float(f), "iter": int(it), "fcalls": int(fc), "warn": int(wf), "direc": [vec(r) for r in np.atleast_2d(direc)],
             "ncalls": len(calls), "ls": ls_log, "cbs": cbs, "outside": outside, "events": events,
             "nan": any(y != y or abs(y) == math.inf for _, y in calls)}
@@ -908,8 +941,9 @@ def powellb_request(which, c, r):
     mi = c["maxiter"] if c["maxiter"] is not None else N * 1000
     mf = c["maxfun"] if c["maxfun"] is not None else N * 1000
     direc = c["direc"] if c["direc"] is not None else [[1.0 if i == j else 0.0 for j in range(N)] for i in range(N)]
-    return "C08 powellb (which %s) (cost (scalar %s)) (x0 %s) (direc %s) (xtol %s) (ftol %s) (maxiter %d) (maxfun %d) (imax 500) (fuel %d)" % (
-        which, dsl.expr_sexp(c["expr"]), fl(c["x0"]), fll(direc), f2b(c["xtol"]), f2b(c["ftol"]), mi, mf, r["iter"] + 3)
+    return "C08 powellb (which %s) (cost (scalar %s)) (x0 %s) (direc %s) (xtol %s) (ftol %s) (maxiter %d) (maxfun %d) (imax %d) (fuel %d)" % (
+        which, dsl.expr_sexp(c["expr"]), fl(c["x0"]), fll(direc), f2b(c["xtol"]), f2b(c["ftol"]), mi, mf,
+        c["imax"] if c.get("imax") is not None else 500, r["iter"] + 3)
 
 
 def powellb_compare(tag, real, reply, hist):
@@ -1048,7 +1082,8 @@ def run_shard(pid, seed, shard, ncases, tier, extra):
         rng = case_rng(PID + "/powell", seed, shard, k)
         c = gen_powell_case(rng, tier)
         case = dict(ident("powell", k)); case.update({"x0": c["x0"], "cost": dsl.expr_sexp(c["expr"]), "xtol": c["xtol"], "ftol": c["ftol"],
-                                                      "maxiter": c["maxiter"], "maxfun": c["maxfun"], "direc": c["direc"]})
+                                                      "maxiter": c["maxiter"], "maxfun": c["maxfun"], "direc": c["direc"], "imax": c.get("imax")})
+        hadd(hist, "powell:imax:%s" % ("default" if c.get("imax") is None else c["imax"]))
         try:
             a = run_powell("mystic", c); b = run_powell("ref", c)
         except Exception as exc:
@@ -1217,7 +1252,7 @@ def witnesses():
 def main(tier, seed):
     t0 = time.time()
     proof = framework.proof_stage(PID, MODULE, THEOREMS, tier)
-    nshards, per = (16, 90) if tier == "quick" else (64, 220)
+    nshards, per = (16, 90) if tier == "quick" else (64, 170)
     run = framework.run_shards("c08", "run_shard", PID, seed, nshards, per, tier)
     run["findings"] = witnesses() + run["findings"]
 
